@@ -710,4 +710,69 @@ Section Proofs.
       + injection Hr as <-. reflexivity.
   Qed.
 
+  (* ---------------------------------------------------------------- statements used by Properties/C16.v *)
+  Lemma lookup_paths_agree c ch : canonical c -> bitmaps_ok c ->
+    char_in cat_in c ch = plain_in c ch /\
+    char_in_slow cat_in c ch = plain_in c ch /\
+    char_in cat_in (prepare_ascii_bitmap cat_in c) ch = plain_in c ch /\
+    (match ascii c with Some bm => 0 <= ch < 128 -> bitmap_test bm ch = plain_in c ch | None => True end) /\
+    linear_scan (ranges c) ch = mem (ranges c) ch /\
+    binary_scan (ranges c) ch = mem (ranges c) ch.
+  Proof.
+    intros Hc Hb. destruct (lookup_agree c Hc Hb ch) as [L1 L2].
+    split; [exact L2|]. split; [exact L1|]. split.
+    - destruct (lookup_agree _ (prepare_canonical c Hc) (prepare_bitmaps_ok c Hb) ch) as [_ L3].
+      rewrite L3. apply prepare_plain_in.
+    - split.
+      + destruct c as [rs cs sb ng an asc]. cbn [ascii]. destruct asc as [bm|]; [|exact I].
+        intros Hr. cbn in Hb. destruct Hb as [Hb _]. rewrite Hb. rewrite bitmap_test_spec by auto. exact L1.
+      + apply range_paths_agree. destruct c; cbn in Hc; tauto.
+  Qed.
+
+  Lemma add_range_union c lo hi ch :
+    neg c = false -> wf_ranges (ranges c) -> 0 <= lo -> lo <= hi -> hi <= max_rune -> valid_rune ch ->
+    plain_in (add_range cat_in c lo hi) ch =
+    (body c ch || ((lo <=? ch) && (ch <=? hi))) && negb (sub_in c ch).
+  Proof.
+    intros Hn Hw H0 H1 H2 Hv. rewrite plain_in_top. rewrite add_range_top by auto. rewrite Hn.
+    unfold sub_in. destruct (add_range_shape c lo hi Hw H0 H1 H2) as (A & _). rewrite A.
+    destruct (body c ch || (lo <=? ch) && (ch <=? hi)); reflexivity.
+  Qed.
+
+  Lemma add_set_sub c s : sub (add_set cat_in c s) = sub c.
+  Proof.
+    unfold add_set. destruct (anything c); [reflexivity|]. destruct (anything s); [reflexivity|].
+    rewrite (proj1 (canonicalize_sub _)).
+    destruct (add_categories_shape (set_ranges c (ranges c ++ ranges s)) (cats s)) as (A & _). rewrite A. reflexivity.
+  Qed.
+
+  Lemma add_set_union c s ch :
+    neg c = false -> any_inv c -> any_inv s -> wf_ranges (ranges c) -> wf_ranges (ranges s) -> valid_rune ch ->
+    plain_in (add_set cat_in c s) ch = (body c ch || body s ch) && negb (sub_in c ch).
+  Proof.
+    intros Hn Hi His Hw Hws Hv. rewrite plain_in_top. rewrite add_set_top by auto. rewrite Hn.
+    unfold sub_in. rewrite add_set_sub. destruct (body c ch || body s ch); reflexivity.
+  Qed.
+
+  Lemma add_categories_union c l ch :
+    neg c = false -> any_inv c -> valid_rune ch ->
+    plain_in (add_categories c l) ch = (body c ch || cats_in l ch) && negb (sub_in c ch).
+  Proof.
+    intros Hn Hi Hv. rewrite plain_in_top. rewrite add_categories_top by auto. rewrite Hn.
+    unfold sub_in. destruct (add_categories_shape c l) as (A & _). rewrite A.
+    destruct (body c ch || cats_in l ch); reflexivity.
+  Qed.
+
+  (* "X and not-X" makes the class match every valid rune *)
+  Lemma add_categories_clash c ng name ch :
+    neg c = false -> sub c = None -> any_inv c -> valid_rune ch -> In (ng, name) (cats c) ->
+    plain_in (add_categories c [(negb ng, name)]) ch = true.
+  Proof.
+    intros Hn Hs Hi Hv Hin. rewrite add_categories_union by auto. unfold sub_in. rewrite Hs. rewrite andb_true_r.
+    unfold body. unfold cats_in at 2; cbn [existsb]. rewrite orb_false_r.
+    destruct (cat_accepts (negb ng, name) ch) eqn:E; [apply orb_true_r|].
+    rewrite (cats_in_In (ng, name) (cats c) ch Hin); [rewrite orb_true_r; reflexivity|].
+    unfold cat_accepts in *; cbn [fst snd] in *. destruct ng, (cat_in name ch); cbn in *; congruence.
+  Qed.
+
 End Proofs.
